@@ -40,7 +40,7 @@ def _atom(rng, dim, finite):
             return "int", int(rng.integers(-dim, dim + (1 if rng.random() < 0.05 else 0)))
         return "int", int(rng.integers(0, dim))
     if r < 0.6:
-        k = int(rng.integers(1, 4))
+        k = int(rng.integers(1, 4)) if rng.random() > 0.08 else 0  # now and then an empty list (numpy: empty result)
         vals = rng.integers(-dim, dim, size=k) if finite else rng.integers(0, dim, size=k)
         return "list", [int(x) for x in vals]
     a, b = sorted(int(x) for x in rng.integers(0, dim + 1, size=2))
